@@ -246,14 +246,14 @@ pub fn run(ctx: &mut Ctx) {
         ctx.count("voices", 1.0);
     });
     // every corpus line once (thorough) / a slice (quick), plus recombinations
-    let chunks = ctx.n(24, 91);
+    let chunks = ctx.n(91, 91);
     ctx.run_cases("bundled-corpus", chunks, true, |ctx, _rng, idx| {
         let per = 16;
         let lo = (idx * per).min(env.corpus.labels.len());
         let hi = ((idx + 1) * per).min(env.corpus.labels.len());
         check_labels(ctx, &bundled_voice, &env.bundled_ref, 1, &env.corpus.labels[lo..hi]);
     });
-    let n = ctx.n(24, 500);
+    let n = ctx.n(64, 500);
     ctx.run_cases("bundled-recombined", n, false, |ctx, rng, _| {
         let labels: Vec<Label> = (0..16).map(|_| env.corpus.recombine(rng)).collect();
         check_labels(ctx, &bundled_voice, &env.bundled_ref, 1, &labels);
@@ -262,7 +262,7 @@ pub fn run(ctx: &mut Ctx) {
         }
     });
 
-    let n = ctx.n(48, 2000);
+    let n = ctx.n(160, 2000);
     ctx.run_cases("synthetic", n, false, |ctx, rng, idx| {
         let mut o = VoiceOpts::random(rng);
         if idx % 4 == 0 {
